@@ -395,8 +395,8 @@ theorem pmPayload_spec {σ σ' : State} {verified : Bool} {bad : Bad} {p : Paylo
 def ThreshValid (e : Thresh) : Prop := ThreshOK P good e.round e
 
 theorem threshValid_of_ok {r : Nat} {e : Thresh} (h : ThreshOK P good r e) : ThreshValid P good e := by
-  intro hk
-  obtain ⟨h1, h2, h3, h4⟩ := h hk
+  refine ⟨fun hk => ?_, h.2⟩
+  obtain ⟨h1, h2, h3, h4⟩ := h.1 hk
   exact ⟨rfl, h2, h3, h1 ▸ h4⟩
 
 theorem threshValid_empty : ThreshValid P good {} := threshOK_empty P good _
